@@ -1162,11 +1162,10 @@ class UGrid(DimensionConvention[UGridKind, UGridIndex]):
 
     @cached_property
     def bounds(self) -> Bounds:
-        topology = self.topology
-        min_x = numpy.nanmin(topology.node_x)
-        max_x = numpy.nanmax(topology.node_x)
-        min_y = numpy.nanmin(topology.node_y)
-        max_y = numpy.nanmax(topology.node_y)
+        # The bounds of all the faces that are part of the dataset geometry.
+        # The node coordinates can include nodes that no face uses,
+        # and nodes of faces that were dropped because their polygon is not valid.
+        min_x, min_y, max_x, max_y = shapely.total_bounds(self.polygons[self.mask])
         return (min_x, min_y, max_x, max_y)
 
     def make_clip_mask(
